@@ -217,3 +217,38 @@ Lemma rect_upper_irrelevant a b1 b2 alpha v f o : f <= b1 -> o <= b1 -> f <= b2 
   q_tw_huber_rect a b1 v f o == q_tw_huber_rect a b2 v f o.
 Proof. intros. unfold q_tw_sq_rect, q_tw_abs_rect, q_tw_quantile_rect, q_tw_expectile_rect, q_tw_huber_rect, qcq, qce, qch, qclip,
    qphi_rect, qphip_rect, qg_rect, Qltb. repeat split; qcmpp; qsolve. Qed.
+
+(* ---------------- the regenerated kernels composed as the tw_* wrappers compose them ---------------- *)
+Lemma lifts_g_rect a b : lifts (gen_g_rect (XFin a) (XFin b)) (qg_rect a b).
+Proof. intro x. apply g_rect_gen_spec. Qed.
+Lemma lifts_phi_rect a b : lifts (gen_phi_rect (XFin a) (XFin b)) (qphi_rect a b).
+Proof. intro x. apply phi_rect_gen_spec. Qed.
+Lemma lifts_phip_rect a b : lifts (gen_phi_prime_rect (XFin a) (XFin b)) (qphip_rect a b).
+Proof. intro x. apply phip_rect_gen_spec. Qed.
+Lemma lifts_g_trap a b c d : a < b -> b < c -> c < d -> lifts (gen_g_trap (XFin a) (XFin b) (XFin c) (XFin d)) (qg_trap a b c d).
+Proof. intros ? ? ? x. apply g_trap_gen_spec; auto. Qed.
+Lemma lifts_phi_trap a b c d : a < b -> b < c -> c < d -> lifts (gen_phi_trap (XFin a) (XFin b) (XFin c) (XFin d)) (qphi_trap a b c d).
+Proof. intros ? ? ? x. apply phi_trap_gen_spec; auto. Qed.
+Lemma lifts_phip_trap a b c d : a < b -> b < c -> c < d -> lifts (gen_phi_prime_trap (XFin a) (XFin b) (XFin c) (XFin d)) (qphip_trap a b c d).
+Proof. intros ? ? ? x. apply phip_trap_gen_spec; auto. Qed.
+
+Lemma xmul_fin_eq k u v : u =x= XFin v -> xmul (XFin k) u =x= XFin (k * v).
+Proof. destruct u; cbn; try tauto. intro E. rewrite E. reflexivity. Qed.
+
+(* pointwise values computed by the five wrappers (finite end points) = the specification functions q_tw_* *)
+Lemma tw_rect_gen a b alpha v f o : a <= b -> 0 <= v ->
+  gen_consistent_expectile (gen_phi_rect (XFin a) (XFin b)) (gen_phi_prime_rect (XFin a) (XFin b)) (XFin f) (XFin o) (XFin (1 # 2))
+    =x= XFin (q_tw_sq_rect a b f o) /\
+  xmul (XFin 2) (gen_consistent_quantile (gen_g_rect (XFin a) (XFin b)) (XFin f) (XFin o) (XFin (1 # 2))) =x= XFin (q_tw_abs_rect a b f o) /\
+  gen_consistent_quantile (gen_g_rect (XFin a) (XFin b)) (XFin f) (XFin o) (XFin alpha) =x= XFin (q_tw_quantile_rect a b alpha f o) /\
+  xmul (XFin (1 # 2)) (gen_consistent_expectile (gen_phi_rect (XFin a) (XFin b)) (gen_phi_prime_rect (XFin a) (XFin b)) (XFin f) (XFin o) (XFin alpha))
+    =x= XFin (q_tw_expectile_rect a b alpha f o) /\
+  xmul (XFin (1 # 2)) (gen_consistent_huber (gen_phi_rect (XFin a) (XFin b)) (gen_phi_prime_rect (XFin a) (XFin b)) (XFin f) (XFin o) (XFin v))
+    =x= XFin (q_tw_huber_rect a b v f o).
+Proof. intros Hab Hv. repeat split.
+ - apply ce_gen_spec; [apply lifts_phi_rect | apply lifts_phip_rect].
+ - apply xmul_fin_eq. apply cq_gen_spec. apply lifts_g_rect.
+ - apply cq_gen_spec. apply lifts_g_rect.
+ - apply xmul_fin_eq. apply ce_gen_spec; [apply lifts_phi_rect | apply lifts_phip_rect].
+ - apply xmul_fin_eq. apply ch_gen_spec; [apply lifts_phi_rect | apply lifts_phip_rect | auto |].
+   exact (subgradient_respects _ _ (qphi_rect_subgradient a b Hab)). Qed.
